@@ -4133,3 +4133,20 @@ def r02_19(ctx):
                 "(remote_last_seq <= ack number): with the data acknowledged but the FIN behind it lost, nothing retransmits the FIN and poll_at answers Ingress", body=b, bb=bad[0][0], path=bad[0][1])
     else:
         ctx.ok(('process', 'ack_all'), sample=dict(fn='tcp::Socket::process', idles_retransmit_timer='only if remote_last_seq <= ack_number'))
+
+
+@rule('R05.15', ['C05'], floor=1, clause='every accepted segment updates the send window: in process() what is stored into remote_win_len is the segment\'s window field (shifted by the peer\'s scale) on every path - never the old value kept because of where the segment lies in the sequence space')
+def r05_15(ctx):
+    F = ctx.F
+    b = ctx.method(SOCK, 'process')
+    ws = [w for w in F.field_writes() if w['fn'] == b.key and w['kind'] == 'store' and w['adt'] == SOCK and w['field'] == 'remote_win_len']
+    ctx.need(ws, "store to remote_win_len in tcp process()")
+    for w in ws:
+        o = strip(simplify(store_origin(F, b, w)))
+        al = alts(o) if o[0] == 'phi' else [o]
+        stale = [a for a in al if not any(l.endswith('tcp::Repr.window_len') for l in leafs(a))]
+        if stale:
+            ctx.bad("tcp::process|send-window-not-updated", f"process() can store `{show(stale[0])[:60]}` into remote_win_len instead of the window the segment announces: a segment that shrinks or closes "
+                    "the window (an out-of-order segment, a window update behind a lost segment) is ignored and later data exceeds the window the peer last announced", body=b, bb=w['bb'])
+        else:
+            ctx.ok(('process', 'remote_win_len', w['bb']), sample=dict(stores='repr.window_len << scale'))
